@@ -245,6 +245,15 @@ def run_lockorder(pid, out, known, confirmed, stats):
     f = dict(x.split("=") for x in line.split()[1:])
     if f.get("staged") != "True" and f.get("staged") != "true":
         return  # the stage could not be set (the readers no longer stop where they did): nothing was observed
+    # the variant the lock model (RWPref.v, C06_readers_alone_finish) says must finish: the same two readers, no writers
+    rc2, o2 = C.sh([C.VH, "lockorder", "readers"], env=C.go_env(), timeout=60)
+    line2 = next((l for l in o2.splitlines() if l.startswith("LOCKORDER")), "")
+    stats["lockorder_readers"] = line2
+    f2 = dict(x.split("=") for x in line2.split()[1:]) if line2 else {}
+    if f2.get("staged") in ("True", "true") and f2.get("done") != "2/2":
+        out.violation({"property": pid, "lockorder": True, "signature": "CONC/lockorder-model",
+                       "what": "EXISTS a b a || EXISTS a b without writers must finish (lock model: C06_readers_alone_finish): " + line2,
+                       "readable": ["vh lockorder readers"], "replay_cmd": "bin/check %s --replay <this file>" % pid})
     if f["done"] != "4/4":
         sig = "CONC/deadlock:lock-order-readers"
         text = "EXISTS a b a || RPUSH a x || EXISTS a b || RPUSH b y || RPUSH a z: " + line
